@@ -127,7 +127,8 @@ type (
 	Update struct {
 		SignedAccumulator *SignedAccumulator
 		Events            []*Event
-		product           *big.Int
+		product           *big.Int // cached product of the E of all events with index >= productFrom
+		productFrom       uint64
 	}
 
 	// Hash represents a SHA256 hash and has marshaling methods to/from JSON.
@@ -309,17 +310,17 @@ func (update *Update) Verify(pk *gabikeys.PublicKey) (*Accumulator, error) {
 }
 
 func (update *Update) Product(from uint64) *big.Int {
-	if update.product != nil {
+	if update.product != nil && update.productFrom == from {
 		return update.product
 	}
-	update.product = big.NewInt(1)
-	if len(update.Events) == 0 {
-		return update.product
+	product := big.NewInt(1)
+	if len(update.Events) != 0 {
+		for _, event := range update.Events[from-update.Events[0].Index:] {
+			product.Mul(product, event.E)
+		}
 	}
-	for _, event := range update.Events[from-update.Events[0].Index:] {
-		update.product.Mul(update.product, event.E)
-	}
-	return update.product
+	update.product, update.productFrom = product, from
+	return product
 }
 
 func (update *Update) Prepend(eventlist *EventList) error {
@@ -345,6 +346,7 @@ func (update *Update) Prepend(eventlist *EventList) error {
 	n.Events = append(eventlist.Events, n.Events...)
 	if eventlist.product != nil {
 		n.product.Mul(n.product, eventlist.product)
+		n.productFrom = n.Events[0].Index
 	} else {
 		n.product = nil
 	}
